@@ -83,6 +83,8 @@ structure Hist (α : Type) where
   samples : List α
   binning : Binning α
   label : String
+  weights : Option (List α)   -- `weights=[...]`, one weight per sample
+  density : Bool              -- `density=True`
 
 inductive Obj (α : Type) where
   | dataset (d : DataSet α)
@@ -111,7 +113,7 @@ inductive DrawCmd (α : Type) where
   | errorbars (ax : Ax) (xs ys yerr xerr : List α)
   | curve (xs ys : List α)
   | band (xs lo hi : List α)
-  | bars (counts : List Nat) (edges : List α)
+  | bars (heights : List α) (edges : List α)
   | label (which : String) (text : String)
   | legend (texts : List String)
   deriving Inhabited
@@ -237,10 +239,48 @@ def edgesOf (ss : List α) : Binning α → List α
 
 def edges (h : Hist α) : List α := edgesOf h.samples h.binning
 
-/-- the pair returned to the caller of `Plot.hist` -/
-def returned (h : Hist α) : List Nat × List α := (counts h.samples h.edges, h.edges)
+/-- `numpy.histogram(..., weights=w)`: the sum of the weights of the samples in one bin -/
+def wsumIn (last : Bool) (a b : α) : List (α × α) → α
+  | [] => Num.ofNat 0
+  | (s, w) :: rest =>
+    if Num.le a s && (if last then Num.le s b else Num.lt s b) then Num.add w (wsumIn last a b rest)
+    else wsumIn last a b rest
 
-def draw (h : Hist α) : List (DrawCmd α) := [.bars (counts h.samples h.edges) h.edges]
+/-- weighted counts for given edges: same bins as `counts` -/
+def wcounts (sw : List (α × α)) : List α → List α
+  | a :: b :: [] => [wsumIn true a b sw]
+  | a :: b :: rest => wsumIn false a b sw :: wcounts sw (b :: rest)
+  | _ => []
+
+/-- `n.sum()` -/
+def total : List α → α
+  | [] => Num.ofNat 0
+  | x :: xs => Num.add x (total xs)
+
+/-- `np.diff(bin_edges)` -/
+def widths : List α → List α
+  | a :: b :: rest => Num.sub b a :: widths (b :: rest)
+  | _ => []
+
+/-- `density=True`: `n / db / n.sum()` -/
+def densityOf (vals ws : List α) : List α :=
+  List.zipWith (fun v w => Num.div (Num.div v w) (total vals)) vals ws
+
+/-- the value of each bin before normalisation: the count of the samples in the bin, resp. the
+    sum of their weights -/
+def binValues (h : Hist α) : List α :=
+  match h.weights with
+  | none => (counts h.samples h.edges).map Num.ofNat
+  | some ws => wcounts (h.samples.zip ws) h.edges
+
+/-- the bar heights: the bin values, divided by (total · bin width) with `density=True` -/
+def heights (h : Hist α) : List α :=
+  if h.density then densityOf h.binValues (widths h.edges) else h.binValues
+
+/-- the pair returned to the caller of `Plot.hist` -/
+def returned (h : Hist α) : List α × List α := (h.heights, h.edges)
+
+def draw (h : Hist α) : List (DrawCmd α) := [.bars h.heights h.edges]
 
 def xrange (h : Hist α) : Option (α × α) :=
   match h.edges.head?, h.edges.getLast? with
